@@ -800,6 +800,12 @@ pub fn desc_from_json(v: &Value) -> DeviceDescription {
         alias: get_u64(v, "alias", 0) as u16,
         pdi_control: get_u64(v, "pdi_control", 0x0104) as u16,
         pdi_config: get_u64(v, "pdi_config", 0) as u16,
+        sync_impulse_len: get_u64(v, "sync_impulse_len", 0) as u16,
+        pdi_config2: get_u64(v, "pdi_config2", 0) as u16,
+        header_words_5_6: {
+            let a = get_array(v, "reserved_words");
+            [a.first().and_then(num).unwrap_or(0) as u16, a.get(1).and_then(num).unwrap_or(0) as u16]
+        },
         version: get_u64(v, "version", 1) as u16,
         size_kbit: get_u64(v, "size_kbit", 16).clamp(1, 4096) as u32,
         has_general: get_bool(v, "has_general", true),
